@@ -11,6 +11,7 @@ import struct
 import subprocess
 import sys
 import tempfile
+import threading
 
 import gen
 from vlib import WORK, Malformed, build_driver, build_repo_bins, driver_info, key_of, main, rng_for, xml_tree
@@ -52,10 +53,29 @@ def convert_case(ctx, cli, tmp, case):
     inp = None
     tail = []
     exp_in = s
+    via = case.get('via', 'plain')
+    feeder = None
+    stdin_file = None
     if mode == 'file':
         p = os.path.join(tmp, 'in.bob')
-        open(p, 'w', encoding='utf-8', newline='').write(s)
+        if via == 'fifo':
+            # the file argument is a named pipe (what `svgbob <(gen)` hands to the tool): it has no size
+            os.mkfifo(p)
+            feeder = threading.Thread(target=feed_fifo, args=(p, s.encode('utf-8')), daemon=True)
+            feeder.start()
+        else:
+            open(p, 'w', encoding='utf-8', newline='').write(s)
         tail = [p]
+        if via == 'symlink':
+            q = os.path.join(tmp, 'dir with blank', 'ln k.bob')
+            os.makedirs(os.path.dirname(q))
+            os.symlink(p, q)
+            tail = [q]
+        elif via == 'devstdin':
+            tail = ['/dev/stdin']
+            inp = s.encode('utf-8')
+        elif via == 'relative':
+            tail = ['./in.bob']
     elif mode == 'inline':
         lit = s.replace('\n', '\\n')
         exp_in = lit.replace('\\n', '\n')
@@ -66,7 +86,24 @@ def convert_case(ctx, cli, tmp, case):
     if case['to_file']:
         outp = os.path.join(tmp, 'out.svg')
         args += ['-o', outp]
-    r = subprocess.run([cli] + args + tail, input=inp, capture_output=True, timeout=120)
+    if mode == 'stdin' and via == 'regular':
+        # standard input redirected from a regular file instead of a pipe
+        q = os.path.join(tmp, 'stdin.bob')
+        open(q, 'wb').write(inp)
+        stdin_file = open(q, 'rb')
+        inp = None
+    try:
+        if mode == 'stdin' and via == 'chunked':
+            r = run_chunked([cli] + args + tail, inp, tmp)
+        else:
+            r = subprocess.run([cli] + args + tail, input=inp, stdin=stdin_file, capture_output=True, timeout=120, cwd=tmp)
+    finally:
+        if stdin_file:
+            stdin_file.close()
+        if feeder:
+            unblock_fifo(tail[0])
+            feeder.join(10)
+    ctx.tag('via_%s_%s' % (mode, via))
     if 'scale' in st:
         st['scale'] = f32(8.0 * f32(st['scale']))
     want = ctx.conv(exp_in, entry=3, flags=7, **st)
@@ -89,6 +126,56 @@ def convert_case(ctx, cli, tmp, case):
     elif r.stdout != wb + b'\n':
         return 'stdout differs from the library document + newline (%d vs %d bytes)%s' % (len(r.stdout), len(wb) + 1, diff_at(r.stdout, wb + b'\n'))
     return None
+
+
+def feed_fifo(path, data):
+    try:
+        with open(path, 'wb') as f:
+            for i in range(0, len(data), 4093):
+                f.write(data[i:i + 4093])
+                f.flush()
+    except OSError:
+        pass
+
+
+def unblock_fifo(path):
+    # a tool that never opened the pipe would leave the feeder blocked in open(): open the read end once
+    try:
+        fd = os.open(path, os.O_RDONLY | os.O_NONBLOCK)
+        os.close(fd)
+    except OSError:
+        pass
+
+
+class Done:
+    pass
+
+
+def run_chunked(cmd, data, tmp):
+    """standard input arrives in small pieces that cut multi-byte characters in two (a slow producer)"""
+    pr = subprocess.Popen(cmd, stdin=subprocess.PIPE, stdout=subprocess.PIPE, stderr=subprocess.PIPE, cwd=tmp)
+    out = []
+    err = []
+    t1 = threading.Thread(target=lambda: out.append(pr.stdout.read()), daemon=True)
+    t2 = threading.Thread(target=lambda: err.append(pr.stderr.read()), daemon=True)
+    t1.start()
+    t2.start()
+    try:
+        step = 7 if len(data) < 4000 else 4099
+        for i in range(0, len(data), step):
+            pr.stdin.write(data[i:i + step])
+            pr.stdin.flush()
+        pr.stdin.close()
+    except OSError:
+        pass
+    pr.wait(120)
+    t1.join(30)
+    t2.join(30)
+    r = Done()
+    r.returncode = pr.returncode
+    r.stdout = out[0] if out else b''
+    r.stderr = err[0] if err else b''
+    return r
 
 
 def diff_at(a, b):
@@ -294,7 +381,12 @@ def gen_convert(rng, circles):
             joined.append(args[i] + '=' + args[i + 1])
             i += 2
         args = joined
-    return {'kind': 'convert', 'doc': s, 'args': args, 'settings': st, 'mode': mode, 'to_file': rng.random() < 0.4}
+    via = 'plain'
+    if mode == 'file' and rng.random() < 0.3:
+        via = rng.choice(['fifo', 'symlink', 'devstdin', 'relative'])
+    if mode == 'stdin' and rng.random() < 0.3:
+        via = rng.choice(['regular', 'chunked'])
+    return {'kind': 'convert', 'doc': s, 'args': args, 'settings': st, 'mode': mode, 'via': via, 'to_file': rng.random() < 0.4}
 
 
 def gen_build(rng, circles):
